@@ -99,6 +99,9 @@ type Cluster struct {
 	closed    bool
 	live      map[int64]*nodeConn
 	acceptCl  map[int]bool // nodes that close every connection right after accepting it
+	recvBuf   int          // SO_RCVBUF for connections accepted from now on (0 = system default)
+	pauseTill time.Time    // readers do not read before this moment (a node too busy to read)
+	probeGate func() <-chan struct{} // when set, every CLUSTER NODES reply (rendered at arrival) waits for the returned gate
 }
 
 // Node is one listening fake Redis node.
@@ -162,6 +165,26 @@ func (c *Cluster) SetAcceptClose(node int, on bool) {
 	c.acceptCl[node] = on
 	c.mu.Unlock()
 }
+
+// SetRecvBuf sets SO_RCVBUF of connections accepted from now on (small values make the peer's writes partial).
+func (c *Cluster) SetRecvBuf(n int) { c.mu.Lock(); c.recvBuf = n; c.mu.Unlock() }
+
+// PauseReads makes every node stop reading from its connections for d (requests pile up in the socket buffers).
+func (c *Cluster) PauseReads(d time.Duration) {
+	c.mu.Lock()
+	c.pauseTill = time.Now().Add(d)
+	c.mu.Unlock()
+}
+
+func (c *Cluster) pauseLeft() time.Duration {
+	c.mu.Lock()
+	defer c.mu.Unlock()
+	return time.Until(c.pauseTill)
+}
+
+// SetProbeGate makes every reply to CLUSTER NODES wait for a gate obtained from f at the moment the probe
+// arrives (the reply text is rendered at that moment too); nil switches it off.
+func (c *Cluster) SetProbeGate(f func() <-chan struct{}) { c.mu.Lock(); c.probeGate = f; c.mu.Unlock() }
 
 // SetPassword makes the nodes require AUTH with this password ("" = none).
 func (c *Cluster) SetPassword(p string) { c.mu.Lock(); c.password = p; c.mu.Unlock() }
@@ -344,9 +367,13 @@ func (n *Node) acceptLoop() {
 		nc := &nodeConn{id: c.connSeq, node: n, nc: conn, qsig: make(chan struct{}, 1), done: make(chan struct{})}
 		c.conns[nc.id] = &ConnInfo{ID: nc.id, Node: n.Index, Opened: time.Now()}
 		c.live[nc.id] = nc
+		rb := c.recvBuf
 		c.mu.Unlock()
 		if tc, ok := conn.(*net.TCPConn); ok {
 			tc.SetNoDelay(true)
+			if rb > 0 {
+				tc.SetReadBuffer(rb)
+			}
 		}
 		go nc.writer()
 		go nc.reader()
@@ -455,7 +482,13 @@ func (nc *nodeConn) reader() {
 	var buf []byte
 	tmp := make([]byte, 64*1024)
 	for {
+		if d := nc.node.c.pauseLeft(); d > 0 {
+			time.Sleep(d)
+		}
 		n, err := nc.nc.Read(tmp)
+		if d := nc.node.c.pauseLeft(); d > 0 && n > 0 {
+			time.Sleep(d) // the pause began while this read was blocked: hold what was read until it is over
+		}
 		if n > 0 {
 			buf = append(buf, tmp[:n]...)
 			for len(buf) > 0 {
@@ -565,6 +598,7 @@ func (nc *nodeConn) dispatch(raw []byte, args [][]byte) {
 			nc.event("cluster")
 			c.mu.Lock()
 			f := c.topoText
+			pg := c.probeGate
 			c.mu.Unlock()
 			var rep []byte
 			if f != nil {
@@ -572,7 +606,11 @@ func (nc *nodeConn) dispatch(raw []byte, args [][]byte) {
 			} else {
 				rep = []byte("-ERR This instance has cluster support disabled\r\n")
 			}
-			nc.send(nil, Action{Reply: rep})
+			a := Action{Reply: rep}
+			if pg != nil {
+				a.Gate = pg()
+			}
+			nc.send(nil, a)
 			return
 		}
 	}
